@@ -17,7 +17,7 @@ import Verif.Model.Policy
     checkNameConstraints                            `checkName` (`checkExcluded`, `permLoop`)
     constraints.New                                 `NewF`     (flat concatenation `New` + per-certificate engines)
     Engine.Validate / ValidateCertificate           `validateF` (`validate` = the flat evaluation, all there was before 4a0d6e3)
-    authority.init: intermediates ++ issuing roots  `chainForSig` (`chainFor` = the key-id selection before 94a532b)
+    authority.init: intermediates ++ issuing roots  `chainForSig` (`chainFor`, `chainForLast` = the selections before 94a532b / 6f79d48)
 
   External calls are input fields (DESIGN.md §4): `url.URL.Host`, `net.SplitHostPort`,
   `net.ParseIP` of a URI host (`Policy.Uri`); an IP address / network is its byte slice(s).
@@ -353,13 +353,28 @@ def authorityValidate (ints roots : List Cert) (n : Names) : Verdict :=
   | none => .allow
   | some ch => validate (New (ch.map (·.nc))) n
 
-/-- the certificates handed to `constraints.New` now: all intermediates, then every configured
-    root whose subject equals the last intermediate's issuer and whose key verifies the last
-    intermediate's signature -/
-def chainForSig (ints roots : List Cert) : Option (List Cert) :=
+/-- **historic** (94a532b … before `fix:` 6f79d48): all intermediates, then every configured root
+    whose subject equals the *last* intermediate's issuer and whose key verifies its signature -/
+def chainForLast (ints roots : List Cert) : Option (List Cert) :=
   match ints.getLast? with
   | none => none
   | some last => some (ints ++ roots.filter fun r => last.issuer == r.subject && r.signsLast)
+
+/-- historic: the authority's decision with the last-element root selection -/
+def authorityValidateLast (ints roots : List Cert) (validateOn : List Level → Verdict) : Verdict :=
+  match chainForLast ints roots with
+  | none => .allow
+  | some ch => validateOn (ch.map (·.nc))
+
+/-- the certificates handed to `constraints.New` now (since 6f79d48): all intermediates, then every
+    configured root that issued *an* intermediate of the list — its subject is that
+    intermediate's issuer and its key verifies that intermediate's signature (`signsLast`:
+    external, computed by the harness with `CheckSignatureFrom` over the intermediates) —
+    whatever the order of the list. No intermediates: no engine. -/
+def chainForSig (ints roots : List Cert) : Option (List Cert) :=
+  match ints with
+  | [] => none
+  | _ => some (ints ++ roots.filter fun r => ints.any (fun c => c.issuer == r.subject) && r.signsLast)
 
 /-- option plumbing (authority/options.go): `WithX509IntermediateCerts(ints...)` *sets* the list of
     intermediates, `WithX509Signer(issuing, key)` / `WithX509SignerChain` *append* their chain to it.
@@ -548,13 +563,13 @@ def certCreators : List String :=
 
 /-- the statements of `authority.init` that assemble the chain handed to `constraints.New`, as
     printed from the syntax tree (blanks inside a statement written `_`): all intermediates, then
-    every configured root with the last intermediate's issuer name whose key verifies its
-    signature. This is the shape `chainForSig` models; a change of it breaks the `paths` stage. -/
+    every configured root that issued an intermediate of the list (issuer name and signature). This is the shape `chainForSig` models; a change of it breaks the `paths` stage. -/
 def rootSelShape : List String :=
   [ "constraintCerts_:=_make([]*x509.Certificate,_0,_size+1)",
     "constraintCerts_=_append(constraintCerts,_a.intermediateX509Certs...)",
     "range a.rootX509Certs",
-    "if bytes.Equal(last.RawIssuer,_root.RawSubject)_&&_last.CheckSignatureFrom(root)_==_nil",
+    "range a.intermediateX509Certs",
+    "if bytes.Equal(crt.RawIssuer,_root.RawSubject)_&&_crt.CheckSignatureFrom(root)_==_nil",
     "constraintCerts_=_append(constraintCerts,_root)",
     "a.constraintsEngine_=_constraints.New(constraintCerts...)" ]
 
